@@ -13,7 +13,5 @@ timeout 7200 make -j16
 cd ..
 ./build_engines.sh
 # hygiene gate
-if grep -rnE 'Admitted|admit\.|^\s*Axiom|^\s*Parameter|^\s*Conjecture|Unset Guard|bypass_check|type-in-type|Admit Obligations' coq/theories coq/extract --include=*.v; then
-  echo "hygiene gate failed"; exit 1
-fi
+python3 tools/hygiene.py || exit 1
 echo "setup ok"
